@@ -206,6 +206,11 @@ pub fn scale_templates() -> Vec<(String, String)> {
         v.push((format!("format_string_{}_bytes", n), format!("print(\"{}\\n\")\n", "x".repeat(n))));
     }
     v.push(("format_string_66000_bytes_non_ascii".into(), format!("print(\"{}\\n\")\n", "é".repeat(33_000))));
+    // multi-byte characters at every alignment relative to any power-of-two block: 2-byte characters at odd offsets, 3-byte and
+    // 4-byte characters (their phase against 4096/8192 drifts), so that one of them straddles every block boundary
+    v.push(("format_string_non_ascii_2_byte_chars_odd_offsets".into(), format!("print(\"a{}\\n\")\n", "é".repeat(5_000))));
+    v.push(("format_string_non_ascii_3_byte_chars".into(), format!("print(\"{}\\n\")\n", "€".repeat(6_000))));
+    v.push(("format_string_non_ascii_4_byte_chars".into(), format!("print(\"ab{}\\n\")\n", "😀".repeat(4_500))));
     v.push(("output_300_KiB".into(), "let i = 0;\nwhile i < 6000 do begin print(\"line ~ of the long output, padded to about fifty bytes\\n\", i); i <- i + 1 end\n".into()));
     v.push(("output_without_line_breaks_40_KiB".into(), "let i = 0;\nwhile i < 8000 do begin print(\"~,\", i); i <- i + 1 end\n".into()));
     v.push(("allocations_6000_objects_and_arrays".into(), "let i = 0;\nlet keep = null;\nwhile i < 3000 do begin keep <- object begin let n = i; function get() -> this.n; end; keep <- array(3, keep); i <- i + 1 end;\nprint(\"~\\n\", i)\n".into()));
@@ -220,7 +225,7 @@ pub fn scale_templates() -> Vec<(String, String)> {
 
 /// Qualification for scale templates: same idea as `qualify`, with a budget that admits their long loops.
 pub fn qualify_scaled(name: &str, spec: &ProgSpec, default_budget: u64) -> Option<vm::RunResult> {
-    qualify(spec, if name.starts_with("scale:") || name.starts_with("boundary:") { 4_000_000 } else { default_budget })
+    qualify(spec, if name.starts_with("scale:") || name.starts_with("boundary:") || name.starts_with("stress:") { 4_000_000 } else { default_budget })
 }
 
 /// Programs whose constant pool ends up with exactly `total` entries, around the largest count the file format can carry in its
